@@ -84,7 +84,13 @@ def main():
 
     argv = [sys.argv[0], "-seed=%d" % (a.seed % (2 ** 31 - 1) + 1), "-max_len=%d" % chk.max_len, "-timeout=120", "-rss_limit_mb=6000",
             "-print_final_stats=1", "-artifact_prefix=%s/" % os.path.dirname(a.out), "-verbosity=1", a.corpus]
-    atheris.Setup(argv, one)
+    mk = getattr(mod, "fuzz_mutator", None)
+    # (atheris.Mutate is re-bound when Fuzz() starts: look it up at call time)
+    mut = mk(a.check, lambda d, n: atheris.Mutate(d, n)) if mk else None
+    if mut is not None:
+        atheris.Setup(argv, one, custom_mutator=mut)
+    else:
+        atheris.Setup(argv, one)
     atheris.Fuzz()
     finish("ok")
 
